@@ -280,7 +280,7 @@ BASE_POINT = {
 }
 
 DIMS = {
-    'ns': ['', 'N', 'N.M', 'N.N'],     # 'N.N': a namespace nested in a namespace of the same name
+    'ns': ['', 'N', 'N.M', 'N.N', 'N.M.K'],     # 'N.N': a namespace nested in a namespace of the same name
     'place': ['same', 'parent', 'global', 'sibling', 'shadow'],
     'extscope': ['global', 'split'],
     'spell': ['simple', 'partial', 'full'],
@@ -293,7 +293,7 @@ DIMS = {
     'psem': ['MTS', 'STS'],
     'rsem': ['allmts', 'allsts', 'firstmts', 'firststs', 'lastmts', 'laststs'],
     'fac': ['create', 'import'],
-    'mc': ['none', 'p0:0', 'p0:1', 'p0:2', 'p1:0'],
+    'mc': ['none', 'p0:0', 'p0:1', 'p0:2', 'p0:3', 'p1:0'],
     'mcsig': ['io', 'none', 'inout'],
     'kind': ['component', 'system'],
     'prefix': ['', 'Other.Project'],
@@ -315,6 +315,8 @@ def full_menu():
             ['IntRet', 'in', ['Cnt'], []],
             ['InOut', 'in', ['void'], [['x', ['T2'], 'inout']]],
             ['Same', 'in', ['void'], [['a', ['T1'], 'in'], ['b', ['T1'], 'in'], ['c', ['T1'], 'inout']]],
+            ['Four', 'in', ['Res'], [['a', ['T3'], 'in'], ['b', ['T1'], 'in'], ['c', ['T2'], 'out'], ['d', ['T3'], 'inout']]],
+            ['OFour', 'out', ['void'], [['a', ['T1'], 'in'], ['b', ['T2'], 'in'], ['c', ['T3'], 'in'], ['d', ['T1'], 'in']]],
             ['IRef', 'in', ['bool'], [['a', ['T4'], 'in'], ['b', ['T2'], 'out']]],
             ['ORef', 'out', ['void'], [['a', ['T4'], 'in'], ['b', ['T1'], 'in']]],
             ['O0', 'out', ['void'], []],
@@ -432,7 +434,7 @@ def build_model(pt):
         which, gidx = pt['mc'].split(':')
         mc_port = int(which[1])
         grant_idx = int(gidx)
-    res_enum = ['enum', 'Res', ['Ok', 'Busy', 'Fail']]
+    res_enum = ['enum', 'Res', ['Ok', 'OkNot', 'Fail', 'F']]     # field names related by prefix; four fields
     types = [res_enum, ['subint', 'Cnt', 0, 9]]
     interfaces = []
 
